@@ -2,6 +2,10 @@
 (* Property-level specification of C16 (seconds and hertz mean the same at  *)
 (* every device sample rate and across changes), from the statement.        *)
 (*   rate r           the device sample rate is (now) r                     *)
+(*   load t           track t is being built: its effects are initialised     *)
+(*                    with the rate published at this moment                 *)
+(*   enq              the track just built has been handed to the audio side *)
+(*   cbk              a callback: tracks handed over so far are picked up    *)
 (*   proc t seen idt  an effect on track t processed audio: seen = the      *)
 (*                    sample rate it was last told (init / on_change),      *)
 (*                    idt = round(1 / dt) of the call                       *)
@@ -18,14 +22,19 @@
 (*                damped low-pass filter (cutoff in hertz) crosses one half:  *)
 (*                1.678 / (2 pi cutoff) seconds; 10 % for the discretisation  *)
 (*        rmin = the lowest device rate in force during the measurement      *)
-EXTENDS Integers
+EXTENDS Integers, Sequences
 
-PInit == [rate |-> 0]
+\* epoch = number of rate changes so far; per track: the epoch at which it was built (le) and picked up (pe, -1: not yet)
+PInit == [rate |-> 0, epoch |-> 0, tl |-> <<>>]
 Abs(x) == IF x < 0 THEN -x ELSE x
 
 Check(m, e) ==
   CASE e.a = "proc" ->
-         IF e.seen # m.rate THEN "effect_processes_with_the_rate_in_force"
+         \* (a change between the building of a track and its pick-up: the clause under which finding D12 is listed;
+         \*  a track built with the current rate, or reached by every change since its pick-up, has no excuse)
+         IF e.seen # m.rate THEN
+            (IF e.t \in 1..Len(m.tl) /\ m.tl[e.t].le < m.tl[e.t].pe THEN "effect_processes_with_the_rate_in_force"
+             ELSE "effect_knows_the_rate_it_was_built_or_told")
          ELSE IF e.idt # m.rate THEN "dt_is_one_over_the_rate_in_force"
          ELSE ""
     [] e.a = "measure" ->
@@ -42,5 +51,10 @@ Check(m, e) ==
     [] e.a = "panic" -> "no_panic"
     [] OTHER -> ""
 
-Upd(m, e) == IF e.a = "rate" THEN [m EXCEPT !.rate = e.r] ELSE m
+Upd(m, e) ==
+  CASE e.a = "rate" -> [m EXCEPT !.rate = e.r, !.epoch = @ + 1]
+    [] e.a = "load" -> [m EXCEPT !.tl = Append(@, [le |-> m.epoch, pe |-> -1, enq |-> FALSE])]
+    [] e.a = "enq" -> [m EXCEPT !.tl = [i \in 1..Len(@) |-> IF i = Len(@) THEN [@[i] EXCEPT !.enq = TRUE] ELSE @[i]]]
+    [] e.a = "cbk" -> [m EXCEPT !.tl = [i \in 1..Len(@) |-> IF @[i].enq /\ @[i].pe = -1 THEN [@[i] EXCEPT !.pe = m.epoch] ELSE @[i]]]
+    [] OTHER -> m
 =============================================================================
